@@ -7,7 +7,8 @@ DRIVER = "resolver"
 ML_EXTRA = ("vmsg.ml",)
 COQ_TARGETS = ["Properties/C18.vo"]
 THEOREMS = ["C18_udp_exchange_dest", "C18_tcp_exchange_dest", "C18_query_nameserver_dest", "C18_port_fixed",
-            "C18_rtypes_of_mode"]
+            "C18_rtypes_of_mode",
+            "C18_port_fixed_whole_log", "C18_forward_only_forwarder", "C18_only_family", "C18_prefer_family", "C18_hostname_loop_order", "C18_get_ip_family"]
 RULE = ("cases: the C07 universes whose nameservers have v4-only, v6-only or dual addresses learnt from the root hints, from "
         "glue, from the initial cache or by recursive lookup x the four protocol modes x upstream ports {53, 5353, 10053, 65535}, "
         "plus forwarding mode with an IPv4 or IPv6 forwarder on its own port; non-trivial = distinct case whose log has at "
